@@ -986,6 +986,16 @@ class RView:
         self.starts, self.lens = starts, lens
 
 
+@class_model("npstructures.raggedshape.RaggedShape")
+def _rshape(ip, args, kwargs, lineno):
+    """RaggedShape(lengths): contiguous rows, starts = exclusive prefix sums of the lengths"""
+    M.use("RaggedShape(lengths): row starts are the prefix sums of the lengths")
+    lens = as_arr(ip, args[0])
+    fl = lens.snapshot()
+    C = M.exclusive_prefix(fl, lens.length, lens)
+    return RShape(lens.length, lambda i: C(I(i)), fl, C=C, contiguous=True)
+
+
 @class_model("npstructures.raggedshape.RaggedView2")
 def _rv2(ip, args, kwargs, lineno):
     M.use("RaggedView2(starts, lens): row i = data[starts[i] : starts[i]+lens[i])")
@@ -1037,6 +1047,9 @@ class RShape:
             return SArr.fresh(self.n, self.lens)
         if name == "starts":
             return SArr.fresh(self.n, self.starts)
+        if name == "ends":
+            st0, ln0 = self.starts, self.lens
+            return SArr.fresh(self.n, lambda i: conc(I(st0(i)) + I(ln0(i))))
         raise Unsupported("ragged shape attribute %s" % name)
 
 
@@ -1058,6 +1071,18 @@ class SRaggedObj(SRagged):
     def setitem(self, ip, idx, value, lineno):
         """ragged item assignment: the written cells belong to THIS array's heap cell; the new content is not tracked
         (havoc) - enough for frame conditions, which is what the engine uses it for."""
+        if self.buf is None and isinstance(idx, tuple) and len(idx) == 2 and isinstance(idx[0], SArr) and idx[0].kind == "bool" \
+                and isinstance(idx[1], (int, z3.ArithRef)) and isinstance(conc(idx[1]), int) and conc(idx[1]) >= 0 and not isinstance(value, (SArr, SRagged, list)):
+            # r[row_mask, c] = scalar on a ragged VALUE (no other alias): exact; the masked rows must be long enough (obligation)
+            M.use("ragged[row mask, column] = scalar (exact, on a ragged value without aliases)")
+            fm, col = idx[0].snapshot(), conc(idx[1])
+            M.same_len(self.n, idx[0].length, "ragged.maskstore", lineno)
+            ln0, old_at = self.lens, self.at
+            ip.ctx.oblige("%s:ragged.column.inbounds@L%s" % (ip.ctx.fname, lineno),
+                          Forall(lambda i: Implies(And(in_range(i, self.n), B(fm(i))), I(ln0(i)) > col)), "safety", lineno, "masked rows have that column")
+            v = ord(value) if isinstance(value, str) and len(value) == 1 else value
+            self.at = lambda i, k, old_at=old_at, fm=fm, col=col, v=v: Ite(And(B(fm(i)), I(k) == col), v, old_at(i, k))
+            return
         M.use("ragged item assignment writes into the array's own buffer (content abstracted)")
         if self.buf is None:
             raise Unsupported("item assignment on a ragged value without heap identity")
@@ -1167,6 +1192,7 @@ def ragged_ravel(ip, r, lineno):
         return SArr.fresh(r.total, r.data_at, "int", r.enc)
     n = r.n
     fl, fs, fd = r.lens, r.starts, r.data_at
+    custom = "at" in r.__dict__                       # a VALUE ragged (elementwise result, reversed rows ...): defined per (row, column)
     c.oblige("%s:ragged.lens.nonneg@L%s" % (c.fname, lineno),
              Forall(lambda i: Implies(in_range(i, n), I(fl(i)) >= 0)), "safety", lineno, "row lengths >= 0")
     C = r.C if r.C is not None else M.exclusive_prefix(fl, n)
@@ -1175,7 +1201,11 @@ def ragged_ravel(ip, r, lineno):
     total = C(I(n))
     c.assume(Forall(lambda p: Implies(in_range(p, total), And(in_range(row(p), n), C(row(p)) <= I(p), I(p) < C(row(p) + 1))),
                     triggers=[row], name="ravel.rowof"))
-    out = SArr.fresh(total, lambda p: fd(I(fs(row(I(p)))) + I(p) - C(row(I(p)))), "int", r.enc)
+    if custom:
+        rat = r.at
+        out = SArr.fresh(total, lambda p: rat(row(I(p)), I(p) - C(row(I(p)))), "int", r.enc)
+    else:
+        out = SArr.fresh(total, lambda p: fd(I(fs(row(I(p)))) + I(p) - C(row(I(p)))), "int", r.enc)
     out.ravel_ragged = (row, C, r)
     return out
 
